@@ -28,8 +28,11 @@ THOROUGH_ONLY = (
     "urwid/display/common.py:AttrSpec.foreground",
     "urwid/display/common.py:AttrSpec.__set_foreground",
     "urwid/util.py:rle_product",
+    "urwid/canvas.py:TextCanvas.__init__#two-rows",  # 4810 paths, ~9 min on one core (the one-row instance runs in the quick tier)
 )
 SHARDS.update({
+    "urwid/canvas.py:TextCanvas.__init__#up-to-one-row": (12, 6),
+    "urwid/canvas.py:TextCanvas.__init__#two-rows": (16, 8),
     "urwid/widget/columns.py:Columns.column_widths": (16, 12),
     "urwid/vterm.py:TermCanvas.resize": (10, 6),
     "urwid/vterm.py:TermCanvas.remove_lines": (4, 4),
@@ -62,15 +65,33 @@ SHARDS.update({
     "urwid/widget/edit.py:Edit.keypress": (6, 5),
 })
 
+SHARDS.update({
+    "urwid/widget/overlay.py:Overlay.render#fixed": (4, 4),
+    "urwid/widget/overlay.py:Overlay.render#flow": (4, 4),
+    "urwid/widget/padding.py:Padding.render#fixed": (4, 4),
+})
+
 # A contract written for one property also serves the others whose statement depends on the same function
 # (the check of each listed property verifies it too).  Keys are registry keys or "module:<contract module>".
 ALSO_SERVES = {
     "C08": ["module:contracts.C16_focuslist"],      # container contents are MonitoredFocusLists: focus validity after edits
     "C12": ["urwid/display/_raw_display_base.py:Screen.parse_input", "urwid/display/_raw_display_base.py:Screen.get_available_raw_input"],
     "C01": ["urwid/widget/scrollable.py:Scrollable.render", "urwid/widget/scrollable.py:Scrollable._adjust_trim_top", "urwid/widget/scrollable.py:ScrollBar.render"],
-    "C07": ["module:contracts.C08_listbox"],        # ListBox focus handling
-    "C06": ["urwid/canvas.py:CompositeCanvas.trim#real-fields", "urwid/canvas.py:CompositeCanvas.trim_end#real-fields"],
+    "C07": ["module:contracts.C08_listbox",        # ListBox focus handling
+            "module:contracts.C16_focuslist"],     # "insertions or deletions in the list": SimpleFocusListWalker is a MonitoredFocusList
+    "C10": ["module:contracts.C14_signals"],       # 'change' / 'postchange' are delivered by Signals.emit / _call_callback
+    "C06": ["urwid/canvas.py:CompositeCanvas.trim#real-fields", "urwid/canvas.py:CompositeCanvas.trim_end#real-fields",
+            # a cached (finalized) canvas refuses to be padded / trimmed, and padding a wrapper never writes to the lists it shares with the cached canvas
+            "urwid/canvas.py:CompositeCanvas.pad_trim_left_right#real-fields", "urwid/canvas.py:CompositeCanvas.pad_trim_top_bottom#real-fields"],
     "C17": ["urwid/display/common.py:AttrSpec.__init__", "urwid/display/common.py:AttrSpec.__set_background"],
     "C03": ["urwid/util.py:calc_trim_text", "urwid/str_util.py:calc_text_pos", "urwid/str_util.py:calc_width"],
     "C04": ["urwid/util.py:calc_trim_text"],
 }
+
+SHARDS.update({
+    "urwid/widget/listbox.py:ListBox.calculate_visible": (16, 14),
+    "urwid/widget/listbox.py:ListBox.mouse_event": (4, 6),
+    "urwid/widget/listbox.py:ListBox.change_focus": (4, 6),
+    "urwid/vterm.py:TermCanvas.csi_set_attr": (12, 6),
+    "urwid/vterm.py:TermCanvas.sgi_to_attrspec": (6, 4),
+})
